@@ -65,24 +65,33 @@ class Rec:
 class Model:
     name = 'c17'
 
-    def __init__(self, nsess=2, cmds=None) -> None:
+    def __init__(self, nsess=2, cmds=None, kind='dict') -> None:
         self.nsess = nsess
+        self.kind = kind
         names = cmds or [n for n, _ in PER_SESSION]
-        self.params = {'nsess': nsess, 'cmds': names}
+        self.params = {'nsess': nsess, 'cmds': names, 'kind': kind}
         table = dict(PER_SESSION)
         self._alpha = []
         for s in range(nsess):
             for n in names:
                 self._alpha.append({'s': s, 'name': n, 'line': table[n]})
         for n, line in GLOBAL:
+            if n == 'ROTATE' and kind != 'dict':
+                continue       # maildir selections are per session
             self._alpha.append({'s': -1, 'name': n, 'line': line})
 
     def alphabet(self):
         return self._alpha
 
     def new(self):
-        w = DictWorld(users={'alice': ('pw', ())})
+        if self.kind == 'dict':
+            w = DictWorld(users={'alice': ('pw', ())})
+        else:
+            from ..worlds import MaildirWorld
+            w = MaildirWorld(layout=self.kind, users={'alice': ('pw', ())},
+                             jail_cheap=True)
         ctx = Ctx(w)
+        ctx.extra['hist'] = []
         rec = Rec()
         ctx.extra['rec'] = rec
         ctx.extra['slots'] = {}
@@ -95,8 +104,12 @@ class Model:
             st = ctx.do(d, b'APPEND INBOX ' + lit(msg(i)))
             assert st.cond == 'OK'
         assert ctx.do(d, b'APPEND Other ' + lit(msg(3))).cond == 'OK'
-        mset = w.mailbox_set('alice')
-        for uid in mset._inbox._messages:
+        if self.kind != 'dict':
+            # an observer that only ever EXAMINEs (claims nothing)
+            o = ctx.connect()
+            assert ctx.do(o, b'LOGIN alice pw').cond == 'OK'
+            ctx.extra['observer'] = o
+        for uid in self._inbox_uids(ctx):
             rec.status[uid] = 'pending'
             rec.seen_rw[uid] = set()
         for s in range(self.nsess):
@@ -133,6 +146,18 @@ class Model:
     # ------------------------------------------------------------------
     def _inbox(self, ctx):
         return ctx.world.mailbox_set('alice')._inbox
+
+    def _inbox_uids(self, ctx):
+        """The UIDs in INBOX right now (dict: glass-box; maildir: through an
+        observer connection that examines, which claims nothing)."""
+        if self.kind == 'dict':
+            return set(self._inbox(ctx)._messages)
+        o = ctx.extra['observer']
+        assert ctx.do(o, b'EXAMINE INBOX').cond == 'OK'
+        st = ctx.do(o, b'UID SEARCH ALL')
+        rows = st.untagged('SEARCH')
+        ctx.do(o, b'CLOSE')
+        return set(rows[0].data) if rows else set()
 
     def _sightings(self, ctx, slot, si, responses, out, name):
         """Record every message shown with \\Recent to session si."""
@@ -180,8 +205,8 @@ class Model:
         if name == 'ROTATE':
             OrderedWeakSet.rotation += 1
             return out
-        inbox = self._inbox(ctx)
-        before = set(inbox._messages)
+        ctx.extra['hist'].append(i)
+        before = self._inbox_uids(ctx)
         live_rw = rec.rw_inbox_live()
         slot = ev['s'] if ev['s'] >= 0 else None
         si = ctx.extra['slots'][slot] if slot is not None \
@@ -212,14 +237,24 @@ class Model:
                 if mbx == 'INBOX' and not ro:
                     # first read-write selection after arrival gets every
                     # pending message
+                    now_uids = self._inbox_uids(ctx)
                     pend = sorted(u for u, s in rec.status.items()
-                                  if s == 'pending' and u in inbox._messages)
+                                  if s == 'pending' and u in now_uids)
                     got = [r.num for r in st.untagged('RECENT')]
-                    if got and got[-1] != len(pend):
+                    # messages that arrived while some read-write selection
+                    # existed and that nobody has been shown \Recent yet may
+                    # be given to this selection as well (at most once)
+                    free = [u for u, s_ in rec.status.items()
+                            if s_ == 'assignable' and u in now_uids
+                            and not rec.seen_rw.get(u)]
+                    if got and not (len(pend) <= got[-1]
+                                    <= len(pend) + len(free)):
                         out.append(Violation(
                             'select-recent-count', name,
                             f'SELECT reported RECENT {got[-1]}, messages '
-                            f'that arrived unselected and unclaimed: {pend}'))
+                            f'that arrived unselected and unclaimed: {pend}'
+                            f' (arrived while selected elsewhere, not yet '
+                            f'shown to anybody: {free})'))
                     for u in pend:
                         rec.status[u] = 'claimed'
                         rec.seen_rw.setdefault(u, set()).add(
@@ -233,7 +268,7 @@ class Model:
             rec.sel[slot] = None
             rec.last_recent[slot] = None
         # arrivals
-        after = set(self._inbox(ctx)._messages)
+        after = self._inbox_uids(ctx)
         for uid in sorted(after - before):
             rec.status[uid] = 'assignable' if live_rw else 'pending'
             rec.seen_rw.setdefault(uid, set())
@@ -247,6 +282,8 @@ class Model:
         return out
 
     def key(self, ctx):
+        if self.kind != 'dict':
+            return (tuple(ctx.extra['hist']),)
         return (dict_world_key(ctx.world), ctx.extra['rec'].key(),
                 tuple(sorted(ctx.extra['slots'].items())),
                 OrderedWeakSet.rotation)
@@ -258,7 +295,7 @@ class Model:
         out = []
         rec: Rec = ctx.extra['rec']
         last = ctx.steps[-1].verb if ctx.steps else '-'
-        inbox = self._inbox(ctx)
+        inbox_uids = self._inbox_uids(ctx)
         for slot, si in sorted(ctx.extra['slots'].items()):
             sel = rec.sel[slot]
             if sel is None or sel[0] != 'INBOX':
@@ -273,7 +310,7 @@ class Model:
             if not sel[1]:
                 must = ctx.extra.get('must_show', {}).get((slot, sel[2]),
                                                           set())
-                missing = {u for u in must if u in inbox._messages} - shown
+                missing = {u for u in must if u in inbox_uids} - shown
                 if missing:
                     out.append(Violation(
                         'claimed-not-shown', last,
@@ -298,7 +335,7 @@ class Model:
                  if any(f.lower() == b'\\recent'
                         for f in r.data.get('FLAGS', []))}
         pend = {u for u, s in rec.status.items()
-                if s == 'pending' and u in inbox._messages}
+                if s == 'pending' and u in inbox_uids}
         if pend - shown:
             out.append(Violation(
                 'pending-lost', last,
@@ -328,24 +365,34 @@ def run(*, tier, seed, jobs, progress, opts):
     t0 = time.perf_counter()
     if 'depth' in opts:
         plans = [dict(nsess=int(opts.get('nsess', 2)),
-                      depth=int(opts['depth']))]
+                      depth=int(opts['depth']),
+                      kind=opts.get('kind', 'dict'))]
     elif tier == 'quick':
-        plans = [dict(nsess=2, depth=3), dict(nsess=3, depth=2)]
+        plans = [dict(nsess=2, depth=3), dict(nsess=3, depth=2),
+                 dict(nsess=2, depth=2, kind='++')]
     else:
         plans = [dict(nsess=2, depth=4),
-                 dict(nsess=3, depth=3)]
+                 dict(nsess=3, depth=3),
+                 dict(nsess=2, depth=3, kind='++'),
+                 dict(nsess=2, depth=2, kind='fs')]
     violations = []
     cov = {'plans': [], 'states': 0, 'transitions': 0,
            'traces_validated_against_impl': 0, 'samples': []}
+    from ..worlds import scratch_parent
     for plan in plans:
         depth = plan.pop('depth')
         m = Model(**plan)
-        res = bfs(m, depth, jobs=jobs, seed=seed, progress=progress)
+        with scratch_parent():
+            res = bfs(m, depth, jobs=jobs, seed=seed, progress=progress)
+        if m.kind != 'dict':
+            for v in res.violations:
+                v['site'] = m.kind + ':' + v['site']
         if res.errors:
             print(res.errors[0])
             raise RuntimeError('harness error during exploration')
         c = res.coverage(m)
-        cov['plans'].append({'sessions': m.nsess, 'depth': depth, **{
+        cov['plans'].append({'sessions': m.nsess, 'depth': depth,
+                             'backend': m.kind, **{
             k: c[k] for k in ('states', 'transitions', 'depth_completed',
                               'frontier_sizes', 'state_cap_hit')}})
         cov['states'] += c['states']
@@ -368,9 +415,11 @@ def run(*, tier, seed, jobs, progress, opts):
 
 
 def replay(rec):
+    from ..worlds import scratch_parent
     r = rec['replay']
     m = Model(**r['params'])
-    viols = run_history(m, r['history'])
+    with scratch_parent():
+        viols = run_history(m, r['history'])
     for v in viols:
         print('VIOLATION-REPLAYED', v['rule'], v['site'], v['msg'])
     return 1 if viols else 0
